@@ -54,18 +54,18 @@ func main() {
 			"sys_programs":          4000,
 			"leaf_consumptions":     6000,
 			"size_calls":            2000,
-			"decisions_with_choice": 5000,
+			"decisions_with_choice": 4000,
 			"parked_in_multiplexer": 10000,
-			"parked_waiting_for_other_clones_to_declare": 4000,
-			"parked_waiting_for_task":                    500,
+			"parked_waiting_for_other_clones_to_declare": 3000,
+			"parked_waiting_for_task":                    400,
 			"task_gate_releases":                         800,
 			"task_error_reported":                        250,
 			"io_error_seen":                              900,
-			"validation_error_seen":                      1000,
+			"validation_error_seen":                      800,
 			"early_closes":                               800,
 			"source_closed_once":                         1900,
 			"leaves_on_clone_of_task_buffer":             500,
-			"error_agreement_checks":                     500,
+			"error_agreement_checks":                     400,
 			"thorough:schedules":                         100000,
 			"thorough:random_programs":                   100000,
 			"thorough:sys_programs":                      30000,
